@@ -136,6 +136,17 @@ func payloadSpecs() []payloadSpec {
 		blockIDSpec("incompressible/1kB", "", 1000, false),
 		blockIDSpec("incompressible/2kB", "", 2000, false),
 		blockIDSpec("compressible/2kB", "", 2000, true),
+		// strictly periodic data: the compressed form has back-references whose offset can change without changing the decoded bytes
+		{class: "periodic8/2kB", build: func(rng *rand.Rand) proto.Message {
+			unit := randBytes(rng, 8)
+			b := make([]byte, 0, 2000)
+			for len(b) < 2000 {
+				b = append(b, unit...)
+			}
+			return &xpb.BlockID{Blockid: b}
+		}, fresh: func() proto.Message { return &xpb.BlockID{} }},
+		{class: "zeros/2kB", build: func(rng *rand.Rand) proto.Message { return &xpb.BlockID{Blockid: make([]byte, 2000)} },
+			fresh: func() proto.Message { return &xpb.BlockID{} }},
 		{class: "nested/PeerInfo", build: buildPeerInfo, fresh: func() proto.Message { return &pb.PeerInfo{} }},
 		{class: "block/InternalBlock", build: buildBlock, fresh: func() proto.Message { return &lpb.InternalBlock{} }},
 		{class: "envelope/XuperMessage", build: func(rng *rand.Rand) proto.Message {
@@ -458,7 +469,7 @@ func burstPatterns(rng *rand.Rand, L, max int) []uint32 {
 	}
 	hi := uint32(1) << uint(L-1)
 	inner := L - 2
-	if inner <= 6 && (1<<uint(inner)) <= max {
+	if inner <= 16 && (1<<uint(inner)) <= max {
 		ps := make([]uint32, 0, 1<<uint(inner))
 		for v := uint32(0); v < (1 << uint(inner)); v++ {
 			ps = append(ps, hi|1|(v<<1))
